@@ -65,6 +65,7 @@ func loadWorld(repo string, patterns []string, trustedDir string) (*World, error
 		contracts: map[string]*FuncContract{}, cfiles: map[string]*ContractFile{}, specs: map[string]*SpecFunc{},
 		lemmas: map[string]*Lemma{}, ghosts: map[string]GhostVar{}, guarded: map[string]string{}, immutable: map[string]bool{},
 		compRange: map[string][2]*big.Int{}, customSorts: map[string]string{}, specPkg: map[string]*types.Package{}, functypes: map[string]*FuncContract{}, compRefLike: map[string]bool{}}
+	w.customSorts["Lv"] = "Lv" // lists of strings (topic levels)
 	cfg := &packages.Config{
 		Mode:       packages.LoadAllSyntax,
 		Dir:        repo,
